@@ -32,8 +32,8 @@ def jOutcome (T : Rat) (flags : List PyFlag) (r : Except PGA.Pipeline.Err Estima
       [("range", jrange e.range), ("n", Json.num (JsonNumber.fromNat e.correlations.length)), ("uq", uq)]))]
 
 /-- one molecule under the library evaluated at several temperatures: `PGA.Pipeline.pipeline reg S lib_T m set` for every `T`.
-The decomposition does not depend on the library's values, so `GetDescriptors` is run once per molecule (on the first library
-— `getDescriptors` only touches the library's `name`) and `estimateOf` once per temperature; that this is `pipeline` is
+The decomposition does not depend on the library, so `decompose` is run once per molecule and `estimateOf` once per temperature
+(on that temperature's library with the molecule on record: `remember`); that this is `pipeline` is
 `PGA.Pipeline.PIPE_driver_computes_pipeline`. -/
 def one (reg : List String) (S : Decompose.SchemeDef) (libs : List (Rat × PGA.Pipeline.Lib)) (set : String)
     (flags : List PyFlag) (m : Mol) : Json :=
